@@ -299,10 +299,9 @@ class Parameter(Accessible):
         """
         self.fixExport()
         if self.constant is not None:
-            constant = self.datatype(self.constant)
-            # The value of the `constant` property should be the
-            # serialised version of the constant, or unset
-            self.constant = self.datatype.export_value(constant)
+            # finish() is called several times (class creation, copy, module init):
+            # keep the internal value, it is serialised when described or read
+            self.constant = self.datatype(self.constant)
             self.readonly = True
         for propname in 'default', 'value':
             if propname in self.propertyValues:
@@ -324,7 +323,10 @@ class Parameter(Accessible):
         return self.datatype.export_value(self.value)
 
     def for_export(self):
-        return dict(self.exportProperties(), readonly=self.readonly)
+        result = dict(self.exportProperties(), readonly=self.readonly)
+        if self.constant is not None:
+            result['constant'] = self.datatype.export_value(self.constant)
+        return result
 
     def getProperties(self):
         """get also properties of datatype"""
